@@ -188,7 +188,7 @@ fn d_connect_short_capsule() {
     core::mem::forget(out);
 }
 
-// @h props=C04,C13 tier=quick t=300 expect=fail sub=twin
+// @h props=C04,C13 tier=quick t=900 expect=fail sub=twin
 // @fn wtransport/src/driver/streams/connect.rs ConnectStream::run
 // @bound twin: claims a clean FIN is a protocol failure; must be refuted
 #[kani::proof]
